@@ -402,9 +402,30 @@ def replay(path: str) -> int:
     bad = 0
     for v in data["violations"]:
         d = v["detail"]
-        if "pattern" not in d:
-            print(f"replay: {v['clause']} {json.dumps(v['sig'])} (re-run the tier to re-check Q3/Q4 records)")
-            bad += 1
+        if "key" in d and "pattern" not in d:  # Q4
+            recs = [c for c in template_records() if c["detail"]["key"] == d["key"]]
+            rec = dict(recs[0]["rec"]) if recs else {"kind": "template", "template": [], "declared": [], "read": []}
+            rec["id"] = 0
+            verdict = _validate([rec], None, "replay")[0]
+            print(f"replay template key={d['key']} record={rec} verdict={verdict}")
+            bad += verdict != "ok"
+            continue
+        if "how" in d:  # Q3: the stored JSON fed back to the config class
+            idx = next(i for i, (p, _) in enumerate(cmds) if list(p) == d["command"])
+            cmd = cmds[idx][1]
+            names = [n for n in cmd.CONFIG_TYPE.model_fields if n != "init_kwargs"]
+            stored = json.loads(d["dump"])
+            rec = {"id": 0, "kind": "reload", "orig": [], "re": [], "err": False}
+            try:
+                again = json.loads(cmd.CONFIG_TYPE(**stored).model_dump_json())
+                rec["orig"], rec["re"] = C._ids([L.ckey(stored.get(n)) for n in names],
+                                                [L.ckey(again.get(n)) for n in names])
+            except BaseException as e:  # noqa: BLE001
+                rec["err"] = True
+                print(f"  reload raised {type(e).__name__}: {str(e)[:200]}")
+            verdict = _validate([rec], None, "replay")[0]
+            print(f"replay reload {' '.join(d['command'])} how={d['how']} verdict={verdict}")
+            bad += verdict != "ok"
             continue
         idx = next(i for i, (p, _) in enumerate(cmds) if list(p) == d["command"])
         sb = L.Sandbox()
